@@ -45,9 +45,25 @@ func New() *Net {
 	return &Net{socks: map[string]*Sock{}, start: time.Now(), LogCap: 100000}
 }
 
+// Family selects the form of the addresses Addr builds from dotted-quad text: 0 the 16-byte IPv4-mapped form (what
+// a dual-stack socket reports, and what net.ParseIP returns), 1 the 4-byte form (a udp4 socket), 2 genuine IPv6
+// addresses (2001:db8::a.b.c.d). Distinct texts stay distinct addresses in every family. Set it only between cases.
+var Family int
+
 // Addr builds a UDP address.
 func Addr(ip string, port int) *net.UDPAddr {
-	return &net.UDPAddr{IP: net.ParseIP(ip), Port: port}
+	p := net.ParseIP(ip)
+	if v4 := p.To4(); v4 != nil {
+		switch Family {
+		case 1:
+			p = v4
+		case 2:
+			p6 := net.ParseIP("2001:db8::")
+			copy(p6[12:], v4)
+			p = p6
+		}
+	}
+	return &net.UDPAddr{IP: p, Port: port}
 }
 
 func key(a *net.UDPAddr) string {
